@@ -23,7 +23,7 @@ STREAM_ASSUME = [
 
 CHECKS = {
     "C01": dict(
-        bins=["fuzz_stream", "sreplay", "c02", "c07", "c11", "c12", "c13", "c14", "c15", "c17"], replay_bin="sreplay", replay_args=[], replay_route=[("c02 ", "c02", ["--mode", "c01"]), ("c07 ", "c07", ["--mode", "c01"])],
+        bins=["fuzz_stream", "sreplay", "c02", "c07", "c10", "c11", "c12", "c13", "c14", "c15", "c17"], replay_bin="sreplay", replay_args=[], replay_route=[("c02 ", "c02", ["--mode", "c01"]), ("c07 ", "c07", ["--mode", "c01"])],
         campaigns=lambda tier, seed: [dict(name="generated_exchanges", bin="c02", shards=16, timeout=3000, args=["--mode", "c01"]),
                                       dict(name="coded_bodies", bin="c07", shards=16, timeout=3000, args=["--mode", "c01"]),
                                       dict(name="path_decoders", bin="c12", shards=16, timeout=3000, args=["--mode", "c01"]),
@@ -31,14 +31,15 @@ CHECKS = {
                                       dict(name="multipart", bin="c14", shards=16, timeout=3000, args=["--mode", "c01"]),
                                       dict(name="urlencoded", bin="c15", shards=16, timeout=3000, args=["--mode", "c01"]),
                                       dict(name="primitives", bin="c17", shards=16, timeout=3000, args=["--mode", "c01"]),
-                                      dict(name="indicators", bin="c11", shards=16, timeout=3000, args=["--mode", "c01"])] + _fuzz("C01", "")(tier, seed), level="exploration",
+                                      dict(name="indicators", bin="c11", shards=16, timeout=3000, args=["--mode", "c01"]),
+                                      dict(name="limits_and_steady_state", bin="c10", shards=16, timeout=3000, args=["--mode", "c01"])] + _fuzz("C01", "")(tier, seed), level="exploration",
         prepare="seeds",
         rule=("coverage-guided histories decoded structure-aware (config x callback plan x two byte streams x op schedule incl. gaps, "
               "close, tx destruction between calls, tx_freed) run under ASan+UBSan+LSan with exact-size chunk copies freed after each call; "
               "non-trivial = history with >=2 data calls in which a REQUEST_HEADERS or RESPONSE_HEADERS callback fired; distinct by input hash "
               "(capped at 400k per worker, so counted conservatively). Two structured campaigns run under the same sanitizers with their semantic oracles switched off "
               "(--mode c01): the C02 exchange generator (cookies, Basic with and without padding, Digest, folding, trailers, all chunkers), the C07 coded-body generator, "
-              "and the enumerators / generators of C11 C12 C13 C14 C15 C17 (path and URL decoders, URI splitting, multipart, urlencoded, containers and primitives)"),
+              "and the enumerators / generators of C10 C11 C12 C13 C14 C15 C17 (path and URL decoders, URI splitting, multipart, urlencoded, containers and primitives)"),
         assumptions=STREAM_ASSUME,
     ),
     "C02": dict(
